@@ -1220,10 +1220,17 @@ protected:
       // body is computed then dropped; Content-Length (reflecting the body a GET
       // would return) is preserved for a 2xx/4xx representation. For a bodyless
       // status (304/204) drop any contradictory body Content-Length (SR-18).
-      if (req.method == HttpMethod::HEAD)
+      // A 204/304 response cannot contain content under ANY method (RFC 9110
+      // §15.3.5/§15.4.5; RFC 9112 §6.3 frames it as ending after the header
+      // section), so the same reconciliation applies to a non-HEAD request: a
+      // handler that only downgrades the status (res.status = 204) would otherwise
+      // put the pre-seeded "Not Found" body (or its own stale one) on the wire,
+      // where the client parses it as the start of the next response.
+      const bool bodylessStatus = (res.status == 204 || res.status == 304);
+      if (req.method == HttpMethod::HEAD || bodylessStatus)
       {
         res.body.clear();
-        if (res.status == 204 || res.status == 304)
+        if (bodylessStatus)
         {
           res.headers.erase("Content-Length");
         }
